@@ -6,7 +6,10 @@ package main
 // values lie outside the specification's number model.  The values are not
 // pinned; the laws hold whatever they are.
 
-import "fmt"
+import (
+	"encoding/json"
+	"fmt"
+)
 
 func init() { extraKinds["eqlaws"] = runEqLaws }
 
@@ -166,4 +169,65 @@ func intOf(v any) int {
 		return int(x)
 	}
 	return 0
+}
+
+// spelled: spec/GenSort.tla -- an array of numbers, equal values spelled differently by position, sorted with
+// the identity key: the result must hold the very elements of the input (same json.Number text) in the stable
+// order, which the specification supplies as a permutation of positions (C13: equal keys keep their order).
+func init() { extraKinds["spelled"] = runSpelled }
+
+func runSpelled(m map[string]any) Result {
+	vals, _ := m["vals"].([]any)
+	perm, _ := m["perm"].([]any)
+	exprs, _ := m["exprs"].([]any)
+	if len(vals) != len(perm) || len(vals) == 0 {
+		return Result{Class: "harness", Detail: "spelled: vals / perm"}
+	}
+	texts := make([]string, len(vals))
+	arr := make([]any, len(vals))
+	for j, v := range vals {
+		n := intOf(v)
+		switch j % 4 {
+		case 0:
+			texts[j] = fmt.Sprintf("%d", n)
+		case 1:
+			texts[j] = fmt.Sprintf("%d.0", n)
+		case 2:
+			texts[j] = fmt.Sprintf("%de0", n)
+		default:
+			texts[j] = fmt.Sprintf("%d0e-1", n)
+		}
+		arr[j] = json.Number(texts[j])
+	}
+	doc := map[string]any{"x": arr}
+	for _, ex := range exprs {
+		expr, err := cpsToString(ex)
+		if err != nil {
+			return Result{Class: "harness", Detail: err.Error()}
+		}
+		c := doSearch(expr, doc)
+		if c.panicked {
+			r := fail("panic", c.out, expr+": "+firstLines(c.stack, 12))
+			r.Site = c.site
+			return r
+		}
+		got, ok := c.raw.([]any)
+		if !ok || len(got) != len(arr) {
+			return fail("mismatch", c.out, fmt.Sprintf("%s on %d spelled numbers: the result is not an array of that length", expr, len(arr)))
+		}
+		for j := range got {
+			want := texts[intOf(perm[j])-1]
+			g, ok := got[j].(json.Number)
+			if !ok || string(g) != want {
+				return fail("mismatch", c.out, fmt.Sprintf("%s on %v: element %d of the result is %v, the stable order has the input element %s there "+
+					"(elements with equal keys keep their original relative order)", expr, texts, j, got[j], want))
+			}
+		}
+		for j := range arr {
+			if n, ok := arr[j].(json.Number); !ok || string(n) != texts[j] {
+				return fail("mutation", nil, expr+": the input array was changed")
+			}
+		}
+	}
+	return Result{OK: true, Pinned: true, GotS: fmt.Sprintf("%d spelled numbers, %d expressions", len(arr), len(exprs))}
 }
